@@ -303,6 +303,7 @@ func buildField(ww *conversionVisitor, node sourcewalk.FieldNode) (*descriptorpb
 					},
 				},
 			}
+			ww.file.ensureImport(bufValidateImport)
 			proto.SetExtension(desc.Options, validate.E_Field, rules)
 		}
 
@@ -330,6 +331,7 @@ func buildField(ww *conversionVisitor, node sourcewalk.FieldNode) (*descriptorpb
 					},
 				},
 			}
+			ww.file.ensureImport(bufValidateImport)
 			proto.SetExtension(desc.Options, validate.E_Field, rules)
 		}
 
@@ -580,6 +582,7 @@ func buildField(ww *conversionVisitor, node sourcewalk.FieldNode) (*descriptorpb
 				return nil, fmt.Errorf("rules: unknown integer format %v", st.Integer.Format)
 			}
 
+			ww.file.ensureImport(bufValidateImport)
 			proto.SetExtension(desc.Options, validate.E_Field, rules)
 		}
 
@@ -724,6 +727,7 @@ func buildField(ww *conversionVisitor, node sourcewalk.FieldNode) (*descriptorpb
 					},
 				},
 			}
+			ww.file.ensureImport(bufValidateImport)
 			proto.SetExtension(desc.Options, validate.E_Field, rules)
 		}
 
@@ -756,6 +760,7 @@ func buildField(ww *conversionVisitor, node sourcewalk.FieldNode) (*descriptorpb
 					// None Implemented.
 				},
 			}
+			ww.file.ensureImport(bufValidateImport)
 			proto.SetExtension(desc.Options, validate.E_Field, rules)
 		}
 
